@@ -24,6 +24,10 @@ Everything of `soxr.c` the wrapper's observable behaviour depends on is modelled
 * `soxr_output` — the pull loop; `soxr_input`; the NULL-pointer errors;
 * dereferences of `p->resamplers` / of the function pointers when they are NULL are **crashes** (`R.crash`).
 
+(State of /repo modelled: after the repairs a55ec94 — `src_error(NULL)`, `src_simple` counts — and 88f0e06 — `RESET_ON_CLEAR`
+derived from the recipe, so no libsamplerate converter id carries it; `soxr_clear`'s `RESET_ON_CLEAR` branch is still modelled,
+it is what `soxr.h` users with the ordinary recipes get.)
+
 `double` values are bit patterns (`Nat`), decoded to exact dyadics by `Conv.f64`; `1/x`, `olen · io_ratio`, `a − b` are
 correctly rounded (round to nearest even) from exact rationals, `(size_t)` of a `double` is the `cvttsd2si` sequence gcc
 emits on x86-64.
@@ -395,11 +399,11 @@ def srcReset (p : Option Obj) : M (Option Obj × Int) :=
   | some o => M.bind (soxrClear o) fun oe => M.pure (some oe.1, rcOf oe.2)
   | none => M.pure (none, -1)
 
-/-- `src_error(p)`: `soxr_error` dereferences `p` without a test. -/
+/-- `src_error(p)`: `p ? -!!soxr_error(p) : -1`. -/
 def srcError (p : Option Obj) : M Int :=
   match p with
   | some o => M.pure (rcOf o.error)
-  | none => crash
+  | none => M.pure (-1)
 
 /-- `src_delete(p)`. -/
 def srcDelete (p : Option Obj) : M Unit :=
@@ -409,11 +413,10 @@ def srcDelete (p : Option Obj) : M Unit :=
 
 /-- `src_simple(io, id, channels)` — its own object (`soxr_oneshot(1, src_ratio, …)`: `io_ratio = 1 / src_ratio`,
     initialised inside `soxr_create`), one `soxr_process` with `~input_frames`, deleted.
-    `refused`: the early test failed and nothing was written; when `soxr_create` fails the code copies two
-    uninitialised variables into the counts (`garbage`). -/
+    `refused`: the early test failed and nothing was written; when `soxr_create` fails inside `soxr_oneshot` the counts
+    are reported as they were initialised: `done (-1) 0 0`. -/
 inductive SRes where
   | refused                 -- `-1`, counts untouched
-  | garbage                 -- `-1`, counts overwritten with uninitialised values
   | done (rc : Int) (used gen : Nat)
 deriving DecidableEq, Repr, Inhabited
 
@@ -431,7 +434,7 @@ def srcSimple (fuel : Nat) (io : Option Data) (id : Nat) (chans : Int) : M SRes 
       let o0 : Obj := { fresh id chans.toNat false with ioRatio := r }
       -- `if (p->num_channels && io_ratio != 0) error = soxr_set_io_ratio(p, io_ratio, 0)`
       M.bind (if isZero r then M.pure (o0, none) else setIoRatio o0 r 0) fun oe =>
-      if oe.2.isSome then M.pure .garbage
+      if oe.2.isSome then M.pure (.done (-1) 0 0)
       else
         M.bind (soxrProcess fuel oe.1 d.inNull (~~~d.inFrames) d.outNull d.outFrames.toNat) fun r =>
         M.bind (closeAll r.1) fun _ => M.pure (.done (rcOf r.1.error) r.2.1 r.2.2)
